@@ -2,13 +2,16 @@
 
 World C: one real ClientSession against 1-3 scripted raw origins that may
 misbehave (surplus / unsolicited responses and fragments, early responses to
-uploads, truncation, close, reset, stall).
+uploads, truncation, close, reset, stall, FIN or junk while the connection
+idles in the pool), directly or through scripted forwarding proxies (absolute
+form and CONNECT tunnels) with per-request proxy credentials / TLS settings.
 Every response carries a marker (origin, connection, the request id it answers
 or 'none', serial).  DESIGN.md section 9, C06.
 """
 from __future__ import annotations
 
 import asyncio
+import base64
 import random
 import re
 
@@ -30,14 +33,18 @@ LEVEL_TEXT = (
     "was handed to that connection, no marker is delivered twice, and a connection on which something abnormal happened "
     "carries no later exchange (judged at the raw server); a response with the caller's own marker says exactly what the "
     "peer's message says unless bytes that arrived after the hand-over precede it; the bytes the client writes to one "
-    "connection are a sequence of complete requests (no request inside a body that was announced and not sent). "
-    "Sampling, not proof."
+    "connection are a sequence of complete requests (no request inside a body that was announced and not sent); all requests "
+    "one connection carried name the same route (host, port, TLS flag and settings, proxy, proxy credentials and headers); "
+    "a connection taken from the pool is not one the client already knew to have ended (transport closing: FIN read, or "
+    "closed by the client after unparsable bytes) at the step it is handed out. Sampling, not proof."
 )
 LEVEL_NOTE = (
     "Trusted: the scripted origins' bookkeeping (what they sent, at which stream offset), SimNet delivery log (arrival "
     "step of every byte), the hand-over instant taken from the public tracing signals on_connection_create_end / "
     "on_connection_reuseconn. TLS is not simulated: https origins differ from http ones only in the pool key / recorded "
-    "sslcontext, which is what the isolation clause needs. Proxies are not exercised."
+    "sslcontext, which is what the isolation clause needs; a CONNECT tunnel's TLS upgrade (loop.start_tls) is a pass-through "
+    "on the same transport. Which connection a request is handed - and what the client knew of it then - is observed through "
+    "a subclass of connector.Connection rebound into aiohttp.connector for the run (constructor only; behaviour unchanged)."
 )
 RULE = (
     "Run = 1-3 client tasks issuing 2-10 requests in total to 1-3 origins (differing in host, port, scheme) x per-request "
@@ -48,12 +55,19 @@ RULE = (
     "100-continue) answered after the body (after '100 Continue') or early - a final response at the head instead of or "
     "right after the 100, the connection kept; and stray fragments that stop short of a complete message (five cut points) "
     "after an answer, in the same write or 1-30 ms later. "
+    "In 12 % of the runs: routes - requests through one of two forwarding proxies (http targets in absolute form, https "
+    "targets through a CONNECT tunnel) with proxy credentials (in the proxy URL or as Proxy-Authorization proxy header) and "
+    "another proxy header whose values differ between requests, https requests with differing ssl= / server_hostname=. "
+    "In 12 % of the runs: the peer closes the connection, or sends non-HTTP bytes on it, 1-8 ms after a complete answer "
+    "(while it idles in the pool) and the next request for the same route is issued at that instant +-1 ms after 0-3 extra "
+    "turns of the loop, so that re-acquisition falls before / between / after 'end processed' and connection_lost(). "
     "Non-trivial: a connection was reused at least once AND at least one misbehaviour or caller-side abnormal end fired."
 )
 COMPONENTS = {
     "real": ["client.ClientSession", "connector.TCPConnector (pool, keys)", "client_proto.ResponseHandler", "client_reqrep",
              "http_parser.HttpResponseParser (Python)", "tracing"],
-    "stub": ["network (SimNet)", "DNS (SimResolver)", "origins (scripted raw servers)", "TLS (recorded, not performed)"],
+    "stub": ["network (SimNet)", "DNS (SimResolver)", "origins and forwarding proxies (scripted raw servers)",
+             "TLS (recorded, not performed; loop.start_tls = pass-through on the same transport)"],
 }
 ASSUMPTIONS = [
     "bytes still in flight when a request is handed to its connection are indistinguishable from an answer for any "
@@ -73,8 +87,16 @@ AFTER = ["read", "read", "read", "release", "close", "leave"]
 _M = re.compile(rb"X-M: o(\d+)\.c(\d+)\.q(\w+)\.n(\d+)")
 # request line of every request this harness issues (bodies never contain it): used to find, in the raw byte stream a
 # connection carried, every request the client wrote to it - also one the origin's framing took for something else
-_REQLINE = re.compile(rb"(GET|POST|HEAD) /r/(\d+)/[^ \r\n]* HTTP/1\.1\r\n")
+# (a request sent to a forwarding proxy names its target in absolute form)
+_REQLINE = re.compile(rb"(GET|POST|HEAD) (?:http://[^/ \r\n]+)?/r/(\d+)/[^ \r\n]* HTTP/1\.1\r\n")
 _CHUNKSIZE = re.compile(rb"[0-9a-fA-F]+(;[^\r\n]*)?")
+# forwarding proxies (plain http to the proxy; https targets through a CONNECT tunnel)
+PROXIES = [("p.test", "10.0.2.9", 3128), ("q.test", "10.0.2.10", 3128)]
+# bytes that are not HTTP, sent on a connection that idles in the client's pool
+JUNK = [b"this is not http\r\n\r\n", b"\x15\x03\x01\x00\x02\x02\x28\r\n\r\n", b"HTTP/9.9 banana\r\n\r\n"]
+# the components of a request's route that are judged by connection_shared_across_routes (host, port and the TLS flag
+# have invariants of their own)
+_ROUTE_PARTS = ("proxy", "proxy_credentials", "proxy_headers", "tls_settings", "server_hostname")
 # stray bytes that stop short of a complete message (sent after a complete answer): index = behaviour argument
 FRAGMENTS = [
     b"HTTP/1.1 2",                                   # (0) the original surplus_partial: cut inside the status line
@@ -108,6 +130,7 @@ def gen(rng, tier, index):
     # Later additions are drawn from a generator of their own (seeded by one last draw) and only in a sampled share of
     # the scenarios, so that all other scenarios stay exactly what they were.
     _gen_extras(scn, random.Random(rng.getrandbits(64)))
+    _gen_routes_and_idle_end(scn, random.Random(rng.getrandbits(64)))
     return scn
 
 
@@ -131,6 +154,56 @@ def _gen_extras(scn, rng):
                 r["beh"] = rng.choice([f"surplus_partial:{k}", f"surplus_partial:{k}", f"partial_later:{rng.choice([1, 8, 30])}:{k}"])
 
 
+def _gen_routes_and_idle_end(scn, rng):
+    """(c) routes: requests through one of two forwarding proxies (http targets in absolute form, https targets through
+    a CONNECT tunnel), with proxy credentials (in the proxy URL or as a Proxy-Authorization proxy header) and another
+    proxy header whose values differ between requests, and https requests with differing TLS settings (ssl= context /
+    another context / False, server_hostname=) - everything the pool must keep apart besides host, port and scheme;
+    (d) the end of an idle connection: the peer closes a connection, or sends bytes that are not HTTP on it, k ms after
+    a complete answer - while it idles in the pool - and the next request for the same route is issued around that very
+    instant (same virtual time +-1 ms, after 0-3 extra turns of the event loop), so that re-acquisition falls before,
+    between and after the steps in which the client learns of the end (bytes/FIN read; connection_lost)."""
+    routes = rng.random() < 0.12
+    idle_end = rng.random() < 0.12
+    if routes:
+        scn["norigins"] = 4
+        for reqs in scn["tasks"]:
+            for r in reqs:
+                if rng.random() < 0.8:
+                    r["origin"] = rng.choice([3, 3, 3, 0, 0, 2])
+                if rng.random() < 0.75:
+                    r["via"] = {"px": rng.choice([0, 0, 0, 1]), "cred": rng.choice([None, 0, 1, 0, 1]),
+                                "how": rng.choice(["url", "hdr"]), "tag": rng.choice([None, None, 0, 1])}
+                if r["origin"] == 3 and rng.random() < 0.3:
+                    r["tls"] = {"ssl": rng.choice(["ctx", "alt", "off"]), "sni": rng.choice([None, None, "alt.test"])}
+                if r["beh"] != "stall" and rng.random() < 0.6:
+                    r["beh"], r["after"] = rng.choice(["ok", "ok", "chunked"]), "read"
+    if idle_end:
+        nid = 1 + max(r["id"] for reqs in scn["tasks"] for r in reqs)
+        for reqs in scn["tasks"]:
+            i = 0
+            while i < len(reqs):
+                r = reqs[i]
+                if r["beh"] != "stall" and not r.get("up") and rng.random() < 0.6:
+                    k = rng.choice([1, 3, 8])
+                    r["beh"] = rng.choice([f"idle_close:{k}", f"idle_close:{k}", f"idle_junk:{k}:{rng.randrange(len(JUNK))}"])
+                    r["after"], r["total"] = "read", None
+                    if i + 1 == len(reqs) and nid < 15:
+                        reqs.append({"id": nid, "origin": r["origin"], "beh": "ok", "after": "read", "gap": 0, "post": False,
+                                     "total": None})
+                        nid += 1
+                    if i + 1 < len(reqs):
+                        nx = reqs[i + 1]
+                        nx["origin"] = r["origin"]
+                        for f in ("via", "tls"):
+                            nx.pop(f, None)
+                            if f in r:
+                                nx[f] = dict(r[f])
+                        nx["gap"] = max(0, k + rng.choice([-1, 0, 0, 0, 1, 2]))
+                        nx["yields"] = rng.choice([0, 1, 1, 2, 3])
+                i += 1
+
+
 def shrink(scn):
     if scn["cancels"]:
         for i in range(len(scn["cancels"])):
@@ -151,6 +224,16 @@ def shrink(scn):
                     yield dict(scn, tasks=ts[:ti] + [reqs[:i] + [dict(r, **{k: v})] + reqs[i + 1:]] + ts[ti + 1:])
             if r["beh"] not in ("ok",):
                 yield dict(scn, tasks=ts[:ti] + [reqs[:i] + [dict(r, beh="ok", total=None)] + reqs[i + 1:]] + ts[ti + 1:])
+            for f in ("via", "tls", "yields"):
+                if r.get(f):
+                    yield dict(scn, tasks=ts[:ti] + [reqs[:i] + [{k: v for k, v in r.items() if k != f}] + reqs[i + 1:]] + ts[ti + 1:])
+            via = r.get("via")
+            if via:
+                for k, v in (("px", 0), ("cred", None), ("tag", None), ("how", "hdr")):
+                    if via[k] != v:
+                        yield dict(scn, tasks=ts[:ti] + [reqs[:i] + [dict(r, via=dict(via, **{k: v}))] + reqs[i + 1:]] + ts[ti + 1:])
+            if r["beh"].startswith("idle_junk:"):
+                yield dict(scn, tasks=ts[:ti] + [reqs[:i] + [dict(r, beh="idle_close:" + r["beh"].split(":")[1])] + reqs[i + 1:]] + ts[ti + 1:])
             if r["beh"].startswith("partial_later:"):
                 yield dict(scn, tasks=ts[:ti] + [reqs[:i] + [dict(r, beh="surplus_partial:" + r["beh"].split(":")[2])] + reqs[i + 1:]] + ts[ti + 1:])
             up = r.get("up")
@@ -167,6 +250,16 @@ def shrink(scn):
 
 
 def run(scn, ch, log=False):
+    import aiohttp.connector as connector_mod
+
+    base = connector_mod.Connection
+    try:
+        return _run(scn, ch, log, connector_mod, base)
+    finally:
+        connector_mod.Connection = base
+
+
+def _run(scn, ch, log, connector_mod, BaseConn):
     import aiohttp
 
     viols = []
@@ -190,9 +283,38 @@ def run(scn, ch, log=False):
             cid = ctr.get_extra_info("sim_conn")
             ctr.recv_log = []
             conns[cid] = {"ctr": ctr, "str": str_, "ssl": ctr.get_extra_info("sslcontext") is not None, "requests": [],
-                          "abnormal": [], "out": 0, "origin": None, "closed_by_server_step": None, "framed": []}
+                          "abnormal": [], "out": 0, "origin": None, "closed_by_server_step": None, "framed": [],
+                          "proxy": None, "handouts": 0}
 
         net.on_connect = on_connect
+
+        # Every hand-out of a connection to a request - new or from the pool - constructs a connector.Connection: the
+        # harness sees which connection it is and what the client knew of it at that instant.  A connection that is
+        # handed out a second time is a reused one; by then the client must not have learnt that it ended (peer's FIN
+        # read, reset, closed by the client itself after bytes it could not parse): transport.is_closing() is asyncio's
+        # statement of exactly that, from the step the end is processed, one loop iteration before connection_lost().
+        class TConn(BaseConn):
+            __slots__ = ()
+
+            def __init__(self, connector, key, protocol, loop_):
+                super().__init__(connector, key, protocol, loop_)
+                tr = protocol.transport
+                cid = tr.get_extra_info("sim_conn") if tr is not None else None
+                info = conns.get(cid)
+                if info is None:
+                    return
+                info["handouts"] += 1
+                if info["handouts"] > 1:
+                    probes["handed_out_again"] = probes.get("handed_out_again", 0) + 1
+                    if tr.is_closing():
+                        why = "peer_closed" if tr.eof_received else "closed_by_client"
+                        violate("no_reuse_after_abnormal", f"handed_out_after_connection_ended:{why}",
+                                f"connection c{cid} was taken from the pool and handed to a request at step {loop.steps} although "
+                                f"its transport was already closing ({why}: "
+                                + ("the peer's FIN had been read" if tr.eof_received else "the client had closed it, e.g. after bytes it could not parse")
+                                + "; connection_lost() not yet delivered)")
+
+        connector_mod.Connection = TConn
 
         class OriginConn(RawServerConn):
             """keeps everything the client wrote to the connection"""
@@ -216,6 +338,8 @@ def run(scn, ch, log=False):
                 cid = c.transport.get_extra_info("sim_conn")
                 c.cid = cid
                 conns[cid]["origin"] = self.idx
+                c.oidx = self.idx  # the origin whose answers this connection carries (a proxy: the target it relays to)
+                c.tunnel = None
                 c.off = 0        # stream offset (client -> origin) of c.buf[0]
                 c.mode = "head"  # what the origin's request framing expects next: "head" | "body" | "dead"
                 c.cur = None
@@ -224,7 +348,7 @@ def run(scn, ch, log=False):
                         reason=b"OK"):
                 serial[0] += 1
                 n = serial[0]
-                marker = b"X-M: o%d.c%d.q%s.n%d" % (self.idx, c.cid, str(req_tag).encode(), n)
+                marker = b"X-M: o%d.c%d.q%s.n%d" % (c.oidx, c.cid, str(req_tag).encode(), n)
                 body = body or (b"body-" + marker[5:])
                 line = b"HTTP/1.1 %d %s\r\n" % (status, reason)
                 if chunked:
@@ -247,7 +371,7 @@ def run(scn, ch, log=False):
                     return  # the origin decided to end this connection: it sends nothing more
                 a = info["out"]
                 info["out"] += len(data)
-                ent = sent.setdefault(n, {"origin": self.idx, "conn": c.cid, "req": req_tag, "kind": kind, "a": a})
+                ent = sent.setdefault(n, {"origin": c.oidx, "conn": c.cid, "req": req_tag, "kind": kind, "a": a})
                 ent["b"] = info["out"]
                 c.send(data)
 
@@ -272,10 +396,18 @@ def run(scn, ch, log=False):
                         for ln in lines[1:]:
                             k = ln.find(b":")
                             low[ln[:k].lower()] = ln[k + 1:].strip(b" \t")
-                        if info["closed_by_server_step"] is not None or not _REQLINE.fullmatch(lines[0] + b"\r\n"):
+                        if info["closed_by_server_step"] is not None:
+                            c.mode = "dead"
+                            return
+                        routed = self.route(c, lines[0], low)
+                        if routed == "tunnel":
+                            continue  # the head was a CONNECT: what follows is addressed to the tunnel's target
+                        if not routed or not _REQLINE.fullmatch(lines[0] + b"\r\n"):
                             c.mode = "dead"
                             return
                         target = lines[0].split(b" ")[1].decode("latin-1")
+                        if target.startswith("http://"):
+                            target = "/" + target.split("/", 3)[3]
                         path, _, query = target.partition("?")
                         opts = dict(kv.split("=", 1) for kv in query.split("&") if kv)
                         parts = path.split("/")  # /r/<id>/<beh>[/<arg>[/<arg2>]]
@@ -319,6 +451,10 @@ def run(scn, ch, log=False):
                     c.cur["end"] = c.off
                     c.mode = "head"
                     self.answer(c, c.cur)
+
+            def route(self, c, line0, low):
+                """an origin serves what it is sent"""
+                return True
 
             def consume_body(self, c, cur):
                 """True: the body is complete; False: more bytes needed; None: the bytes are not a body of this framing"""
@@ -368,7 +504,7 @@ def run(scn, ch, log=False):
                 info = conns[c.cid]
                 early = cur is not None and cur["end"] is None
                 if beh in ("ok", "chunked", "slowbody", "close_after", "connclose", "surplus_same", "surplus_later",
-                           "surplus_partial", "partial_later"):
+                           "surplus_partial", "partial_later", "idle_close", "idle_junk"):
                     chunked = beh == "chunked"
                     extra = b"Connection: close\r\n" if beh == "connclose" else b""
                     # a final answer given instead of the '100 Continue' that was asked for is a refusal
@@ -414,6 +550,32 @@ def run(scn, ch, log=False):
                             self.send(c, n2, FRAGMENTS[cur["args"][1]], "none", "unsolicited")
                             info["abnormal"].append(("partial", n2))
                         loop.sim_call_later(arg * 0.001, later_fragment)
+                    elif beh == "idle_close":
+                        # the peer ends the connection some ms after a complete answer: while it idles in the pool
+                        probes["misbehaviour"] += 1
+
+                        def close_idle():
+                            if c.transport is None or c.transport.is_closing() or info["closed_by_server_step"] is not None:
+                                return
+                            probes["idle_close"] = probes.get("idle_close", 0) + 1
+                            info["closed_by_server_step"] = loop.steps
+                            c.transport.close()
+                        loop.sim_call_later(arg * 0.001, close_idle)
+                    elif beh == "idle_junk":
+                        # ... or sends bytes that are not HTTP
+                        probes["misbehaviour"] += 1
+
+                        def later_junk():
+                            if c.transport is None or c.transport.is_closing():
+                                return
+                            if info["abnormal"]:
+                                return  # (after a stray fragment the junk would complete it into a message of its own)
+                            probes["idle_junk"] = probes.get("idle_junk", 0) + 1
+                            serial[0] += 1
+                            n2 = serial[0]
+                            self.send(c, n2, JUNK[cur["args"][1]], "none", "unsolicited")
+                            info["abnormal"].append(("partial", n2))
+                        loop.sim_call_later(arg * 0.001, later_junk)
                     elif beh in ("close_after", "connclose"):
                         probes["misbehaviour"] += int(beh == "close_after")
                         info["closed_by_server_step"] = loop.steps
@@ -439,6 +601,57 @@ def run(scn, ch, log=False):
             def on_lost(self, c):
                 pass
 
+        def origin_index(host, port, scheme):
+            for i in range(no):
+                if (ORIGINS[i][0], ORIGINS[i][2], ORIGINS[i][3]) == (host, port, scheme):
+                    return i
+            return None
+
+        class Proxy(Origin):
+            """A forwarding proxy, played by the origins' own script: a request in absolute form is answered as the
+            origin its URL names would answer it; CONNECT opens a tunnel to the origin it names (TLS is a pass-through)
+            and from then on the connection is a connection of that origin.  The proxy admits everybody; what it was
+            told by whom (Proxy-Authorization, X-Px-Tag) is kept per connection."""
+
+            def __init__(self, pidx):
+                super().__init__(None)
+                self.pidx = pidx
+
+            def on_connect(self, c):
+                super().on_connect(c)
+                info = conns[c.cid]
+                info["proxy"], info["px_seen"] = self.pidx, []
+                c.oidx = None
+
+            def route(self, c, line0, low):
+                info = conns[c.cid]
+                parts = line0.split(b" ")
+                seen = (low.get(b"proxy-authorization"), low.get(b"x-px-tag"))
+                if parts[0] == b"CONNECT" and c.tunnel is None and len(parts) == 3:
+                    host, _, port = parts[1].decode("latin-1").rpartition(":")
+                    oi = origin_index(host, int(port) if port.isdigit() else -1, "https")
+                    if oi is None:
+                        return False
+                    info["px_seen"].append(("connect",) + seen)
+                    probes["tunnels"] = probes.get("tunnels", 0) + 1
+                    c.tunnel = c.oidx = oi
+                    serial[0] += 1
+                    self.send(c, serial[0], b"HTTP/1.1 200 Connection established\r\n\r\n", "none", "connect")
+                    return "tunnel"
+                if c.tunnel is not None:
+                    return not parts[1].startswith(b"http://")  # inside the tunnel: the target origin's own traffic
+                if len(parts) == 3 and parts[1].startswith(b"http://"):
+                    auth = parts[1][7:].split(b"/", 1)[0].decode("latin-1")
+                    host, _, port = auth.partition(":")
+                    oi = origin_index(host, int(port) if port.isdigit() else 80, "http")
+                    if oi is None:
+                        return False
+                    info["px_seen"].append(("forward",) + seen)
+                    probes["forwarded"] = probes.get("forwarded", 0) + 1
+                    c.oidx = oi
+                    return True
+                return False  # origin-form on a connection to a proxy: nothing a proxy can route
+
         origins = []
         listener_of = {}
         for i in range(no):
@@ -451,6 +664,25 @@ def run(scn, ch, log=False):
             o = Origin(i)
             origins.append(o)
             net.listen((lambda o=o: OriginConn(o)), ip, port)
+
+        uses_proxy = any(r.get("via") for reqs in scn["tasks"] for r in reqs)
+        if uses_proxy:
+            for pi, (pname, pip, pport) in enumerate(PROXIES):
+                net.dns[pname] = [pip]
+                net.listen((lambda o=Proxy(pi): OriginConn(o)), pip, pport)
+
+            async def start_tls(transport, protocol, sslcontext, *, server_hostname=None, **kw):
+                # TLS is not performed: the upgrade of an established transport (the tunnel) hands the very same
+                # transport to the new protocol; like asyncio's start_tls it closes a transport it cannot upgrade
+                if transport.is_closing():
+                    transport.close()
+                    raise ConnectionAbortedError(103, "SSL handshake is taking place on a closed transport")
+                conns[transport.get_extra_info("sim_conn")]["ssl"] = True
+                loop.note("start_tls", transport.name)
+                transport.set_protocol(protocol)
+                return transport
+
+            loop.start_tls = start_tls
 
         def same_endpoint(a, b):
             return ORIGINS[a][1:3] == ORIGINS[b][1:3]
@@ -476,6 +708,8 @@ def run(scn, ch, log=False):
         async def setup():
             import ssl as _ssl
             state["sslctx"] = _ssl.create_default_context() if any(ORIGINS[i][3] == "https" for i in range(no)) else None
+            if any((r.get("tls") or {}).get("ssl") == "alt" for reqs in scn["tasks"] for r in reqs):
+                state["sslctx2"] = _ssl.SSLContext(_ssl.PROTOCOL_TLS_CLIENT)  # other TLS settings: another context
             conn = aiohttp.TCPConnector(resolver=SimResolver(net), limit=scn["limit"], keepalive_timeout=scn["keepalive"])
             state["session"] = aiohttp.ClientSession(connector=conn, trace_configs=[tc])
 
@@ -490,7 +724,23 @@ def run(scn, ch, log=False):
             url = f"{scheme}://{name}:{port}/r/{r['id']}/{beh}"
             kw = {"trace_request_ctx": r["id"], "timeout": aiohttp.ClientTimeout(total=r["total"])}
             if scheme == "https":
-                kw["ssl"] = state["sslctx"]
+                tls = r.get("tls") or {}
+                kw["ssl"] = {"ctx": state["sslctx"], "alt": state.get("sslctx2"), "off": False}[tls.get("ssl", "ctx")]
+                if tls.get("sni"):
+                    kw["server_hostname"] = tls["sni"]
+            via = r.get("via")
+            if via:
+                probes["proxied"] = probes.get("proxied", 0) + 1
+                pname, pip, pport = PROXIES[via["px"]]
+                cred = None if via["cred"] is None else "Basic " + base64.b64encode(f"u{via['cred']}:pw".encode()).decode()
+                ph = {}
+                if via["tag"] is not None:
+                    ph["X-Px-Tag"] = f"t{via['tag']}"
+                if cred is not None and via["how"] == "hdr":
+                    ph["Proxy-Authorization"] = cred
+                kw["proxy"] = f"http://u{via['cred']}:pw@{pname}:{pport}" if cred is not None and via["how"] == "url" else f"http://{pname}:{pport}"
+                if ph:
+                    kw["proxy_headers"] = ph
             up = r.get("up")
             meth = session.post if r["post"] or up else session.get
             if up:
@@ -554,6 +804,8 @@ def run(scn, ch, log=False):
             for r in reqs:
                 if r["gap"]:
                     await asyncio.sleep(r["gap"] * 0.001)
+                for _ in range(r.get("yields", 0)):
+                    await asyncio.sleep(0)  # the caller gets round to it a few turns of the loop later
                 await one(r)
 
         tasks = [loop.create_task(worker(reqs), name=f"w{i}") for i, reqs in enumerate(scn["tasks"])]
@@ -571,6 +823,9 @@ def run(scn, ch, log=False):
             if not t.done():
                 t.cancel()
         loop.run_sim(None, vt_cap=loop.time() + 1.0, step_cap=loop.steps + 50_000)
+        for t in tasks:
+            if t.done() and not t.cancelled() and t.exception() is not None:
+                raise t.exception()  # one() catches what the client raises: anything else is the harness' own fault
 
         # ---------------------------------------------------------------- judge
         def arrival_step(cid, offset):
@@ -611,6 +866,14 @@ def run(scn, ch, log=False):
             return False
 
         all_reqs = {r["id"]: r for reqs in scn["tasks"] for r in reqs}
+
+        def route_of(r):
+            name, ip, port, scheme = ORIGINS[r["origin"]]
+            via = r.get("via") or {}
+            tls = (r.get("tls") or {}) if scheme == "https" else {}
+            return {"host": name, "port": port, "tls": scheme == "https", "proxy": via.get("px"),
+                    "proxy_credentials": via.get("cred"), "proxy_headers": via.get("tag"),
+                    "tls_settings": tls.get("ssl", "ctx"), "server_hostname": tls.get("sni")}
         seen_serials = {}
         for rid, mk in sorted(delivered.items()):
             r = all_reqs[rid]
@@ -692,6 +955,31 @@ def run(scn, ch, log=False):
                 if r is not None and info["origin"] is not None and not same_endpoint(r["origin"], info["origin"]):
                     violate("origin_isolation", "request_on_other_origins_connection",
                             f"request {rid} for origin {r['origin']} was written to a connection of origin {info['origin']}")
+            # ... and with the same proxy (which proxy, presented with which credentials / proxy headers - a tunnel is
+            # opened with them once) and the same TLS settings: all requests one connection carried name one route
+            first = all_reqs.get(reqs[0][0]) if reqs else None
+            for (rid, step, method, hdrs) in reqs[1:]:
+                r = all_reqs.get(rid)
+                if first is None or r is None:
+                    continue
+                ra, rb = route_of(first), route_of(r)
+                if (ra["host"], ra["port"], ra["tls"]) != (rb["host"], rb["port"], rb["tls"]):
+                    continue  # judged above
+                for part in _ROUTE_PARTS:
+                    if ra[part] != rb[part]:
+                        mode = "direct" if info["proxy"] is None else "tunnel" if info["ssl"] else "forward"
+                        violate("origin_isolation", f"connection_shared_across_routes:{part}:{mode}",
+                                f"connection c{cid} ({'tunnel through ' if info['proxy'] is not None and info['ssl'] else ''}"
+                                f"{'proxy %d' % info['proxy'] if info['proxy'] is not None else 'direct'}) carried request "
+                                f"{first['id']} (route {ra}) and then request {rid} (route {rb}): they differ in {part}"
+                                + (f"; the proxy was told {info['px_seen']}" if info.get("px_seen") else ""))
+                        break
+            if reqs and all_reqs.get(reqs[0][0]) is not None:
+                r0 = all_reqs[reqs[0][0]]
+                want = (r0.get("via") or {}).get("px")
+                if want != info["proxy"]:
+                    violate("origin_isolation", "connection_shared_across_routes:proxy",
+                            f"request {r0['id']} (proxy {want}) was written to connection c{cid} (proxy {info['proxy']})")
             # the client's side of the stream is a sequence of complete requests: no request is written where the
             # body an earlier head announced has not been sent (or was cut short)
             for (rid, step, method, off) in reqs:
@@ -766,5 +1054,6 @@ def run(scn, ch, log=False):
         }
         if log:
             res["event_log"] = loop.event_log
-            res["debug"] = {"outcomes": outcomes, "delivered": delivered, "handover": handover}
+            res["debug"] = {"outcomes": outcomes, "delivered": delivered, "handover": handover,
+                            "task_exc": [repr(t.exception()) for t in tasks if t.done() and not t.cancelled() and t.exception()]}
         return res
